@@ -23,6 +23,7 @@ func init() {
 			"R6 (= C14.R6/R6b) the manifest parsed, extended and written back comes from this attempt's workspace and lives in an object allocated during the attempt. " +
 			"R3c the manifest bytes handed to the workspace are prototext.Marshal's output with constant framing only (append / conversion / slicing); no other function is applied to them. " +
 			"R5 every in-repo implementation of ChangeOps.WriteOrCreateFiles replaces a file's contents wholly (os.WriteFile / os.Create, or os.OpenFile with O_TRUNC and without O_APPEND), so a rewritten manifest or endorsement that got shorter keeps no stale tail. " +
+			"R7 (ESP) ChangeOps.TryCommit is never reached in a state where an endorsement file was written under the output directory (a call whose callee reaches an endorsement write and whose path argument derives from Context.OutDir) in the current workspace and no manifest write succeeded after it: the committed manifest maps the run's digest to the file the run wrote. " +
 			"Not covered: the four-way merge preserving path/digest uniqueness over histories (a relational invariant over list contents), that the manifest parses back.",
 		Assumptions: []string{"go/types, go/ssa, VTA call graph", "ChangeOps.ReadFile / IsNotFound faithfully report existence"},
 		Run:         runC13,
@@ -90,18 +91,101 @@ func runC13(c *Ctx) {
 		evAllow
 		evWriteEnd
 		evWriteManifest
+		evWriteOut
+		evCommit
+		evNewWorkspace
 	)
 	const (
 		bNotExists uint = iota
 		bAllow
 		bEndWritten
+		bInOutWrite
+		bOutPending
 	)
-	names := []string{"probe:absent", "overwrite:allowed", "endorsement:written"}
+	names := []string{"probe:absent", "overwrite:allowed", "endorsement:written", "in output-directory write", "output-directory endorsement newer than manifest"}
+	// R7: calls in package endorse that write an endorsement file to a path under the output directory (the directory
+	// the manifest indexes): the callee reaches an endorsement-kind write and a path argument derives from Context.OutDir
+	outDirFns := map[*ssa.Function]bool{}
+	for _, f := range c.P.RepoFunctions() {
+		if load.RelPkg(f) != "endorse" || c.isTestFunc(f) {
+			continue
+		}
+		for _, b := range f.Blocks {
+			for _, in := range b.Instrs {
+				if fa, ok := in.(*ssa.FieldAddr); ok && flow.FieldName(fa) == "OutDir" && typeMentions(fa.X, endorsePkg, "Context") {
+					outDirFns[f] = true
+				}
+			}
+		}
+	}
+	endWriteFns := map[*ssa.Function]bool{}
+	for _, f := range c.funcsCalling(func(call ssa.CallInstruction) bool { return isWrite(call) && writeKind(call) == "endorsement" }) {
+		endWriteFns[f] = true
+	}
+	reachesEndWrite := map[*ssa.Function]bool{}
+	outWrite := map[ssa.Instruction]bool{}
+	for _, f := range c.P.RepoFunctions() {
+		if load.RelPkg(f) != "endorse" || c.isTestFunc(f) {
+			continue
+		}
+		for _, call := range callsIn(f, func(call ssa.CallInstruction) bool {
+			g := call.Common().StaticCallee()
+			return g != nil && load.FuncInRepo(g) && !isWrite(call)
+		}) {
+			g := call.Common().StaticCallee()
+			r, ok := reachesEndWrite[g]
+			if !ok {
+				for h := range c.reachable([]*ssa.Function{g}, func(h *ssa.Function) bool { return load.FuncInRepo(h) }) {
+					if endWriteFns[h] {
+						r = true
+					}
+				}
+				reachesEndWrite[g] = r
+			}
+			if !r {
+				continue
+			}
+			under := false
+			for _, a := range call.Common().Args {
+				switch a.Type().String() {
+				case "string", "[]string":
+				default:
+					continue
+				}
+				lsl := flow.NewSlicer(c.P)
+				lsl.LiftParams = 0
+				lsl.Visit(a, func(v ssa.Value) bool {
+					if cl, ok := v.(*ssa.Call); ok && outDirFns[cl.Call.StaticCallee()] {
+						under = true
+						return false
+					}
+					if fa, ok := v.(*ssa.FieldAddr); ok && flow.FieldName(fa) == "OutDir" {
+						under = true
+						return false
+					}
+					return true
+				}, nil)
+			}
+			if under {
+				outWrite[call.(ssa.Instruction)] = true
+			}
+		}
+	}
+	c.S.Floor("R7", "calls writing an endorsement file under the output directory", 1, len(outWrite))
 	kinds := map[ssa.Instruction]string{}
 	classify := func(in ssa.Instruction) (int, bool) {
 		call, ok := in.(ssa.CallInstruction)
 		if !ok {
 			return 0, false
+		}
+		if outWrite[in] {
+			return evWriteOut, true
+		}
+		if invokeIs(call, endorsePkg, "ChangeOps", "TryCommit") {
+			return evCommit, true
+		}
+		if invokeIs(call, endorsePkg, "VersionControl", "GetChangeOps") {
+			return evNewWorkspace, true
 		}
 		if f := call.Common().StaticCallee(); f != nil {
 			if probes[f] {
@@ -141,7 +225,7 @@ func runC13(c *Ctx) {
 		switch id {
 		case evProbe, evAllow:
 			ev.BoolIdx = 0
-		case evWriteEnd, evWriteManifest:
+		case evWriteEnd, evWriteManifest, evWriteOut:
 			ev.ErrIdx = errIndex(call.Common().Signature())
 		}
 		reached[id]++
@@ -166,11 +250,30 @@ func runC13(c *Ctx) {
 				return s, "R1: endorsement file written in state " + st + " with neither a negative existence probe nor overwrite permission"
 			}
 			if ph == esp.Ok {
-				return s.Set(bEndWritten), ""
+				s = s.Set(bEndWritten)
+				if s.Has(bInOutWrite) {
+					s = s.Set(bOutPending)
+				}
+				return s, ""
+			}
+		case evWriteOut:
+			if ph == esp.AtCall {
+				return s.Set(bInOutWrite), ""
+			}
+			return s.Clear(bInOutWrite), ""
+		case evNewWorkspace:
+			// what an earlier attempt wrote went into a workspace that is gone
+			return s.Clear(bOutPending).Clear(bInOutWrite), ""
+		case evCommit:
+			if ph == esp.AtCall && s.Has(bOutPending) {
+				return s, "R7: the workspace is committed in state " + st + ": an endorsement file was written under the output directory and no manifest was written after it (the run's firmware digest does not map to the file it wrote)"
 			}
 		case evWriteManifest:
 			if ph == esp.AtCall && !s.Has(bEndWritten) {
 				return s, "R3: manifest written in state " + st + " before the endorsement file was written successfully"
+			}
+			if ph == esp.Ok {
+				return s.Clear(bOutPending), ""
 			}
 		}
 		return s, ""
@@ -197,6 +300,11 @@ func runC13(c *Ctx) {
 	c.S.Floor("R3", "manifest write sites reached", 1, reached[evWriteManifest])
 	c.S.Floor("R1", "existence probe calls reached", 1, reached[evProbe])
 	c.S.Floor("R1", "AllowOverwrite calls reached", 1, reached[evAllow])
+	c.S.Floor("R7", "output-directory endorsement writes reached", 1, reached[evWriteOut])
+	c.S.Floor("R7", "workspace commits reached", 1, reached[evCommit])
+	if n == 0 {
+		c.S.OK("R7", "endorse.VirtualFirmware", c.pos(vf.Pos()), fmt.Sprintf("held on %d configurations", e.Configs), true)
+	}
 	if n == 0 {
 		c.S.OK("R1", "endorse.VirtualFirmware", c.pos(vf.Pos()), fmt.Sprintf("held on %d configurations", e.Configs), true)
 		c.S.OK("R3", "endorse.VirtualFirmware", c.pos(vf.Pos()), fmt.Sprintf("held on %d configurations", e.Configs), true)
